@@ -2,7 +2,18 @@ package main
 
 // registry: one entry per claimed property. Case counts live in the test
 // packages (Spec.N is the quick-tier count); the driver only scales them.
+var pbfAssume = []string{
+	"valid file = what the harness's independent encoder emits: packed encodings only, one element kind per group, zlib or raw blobs, string-table entry 0 is \"\", dense tag keys non-empty, timestamps <= 2100-01-01, versions/uids in [0,2^31)",
+	"the Go toolchain, protowire (used only as a varint writer) and compress/zlib are trusted",
+}
+
 var registry = []prop{
+	{
+		ID: "C01", Pkg: "props/c01", Level: "exploration",
+		Quick:  tierCfg{Shards: 1, Scale: 1, TimeoutS: 300},
+		Thor:   tierCfg{Shards: 16, Scale: 4, TimeoutS: 1500},
+		Assume: pbfAssume,
+	},
 	{
 		ID: "C10", Pkg: "props/c10", Level: "exploration",
 		Quick: tierCfg{Shards: 1, Scale: 1, TimeoutS: 240},
